@@ -184,6 +184,10 @@ func (e *env) term(x ast.Expr) (string, error) {
 		if err != nil {
 			return "", err
 		}
+		// the index of a reverse loop that counts from len(C) down to 1: i-1 is the element index
+		if t.Op == token.SUB && r == "1" && strings.HasPrefix(l, "idx1(") {
+			return "idx(" + l[5:], nil
+		}
 		return "(" + l + " " + t.Op.String() + " " + r + ")", nil
 	case *ast.CallExpr:
 		// conversion
